@@ -91,6 +91,10 @@ Definition has_cr (s : bytes) : bool := existsb (fun c => eqc c Lex.CR) s.
    whitespace after it; [pend] carries that CR into the next token *)
 Definition split_cr (s : bytes) : bytes * bool :=
   match rev s with c :: r => if eqc c Lex.CR then (rev r, true) else (s, false) | [] => (s, false) end.
+(* [at_start]: the token begins a line (start of the text, or the whitespace token before it ended in a line break:
+   full_moon's whitespace tokens are blanks followed by at most one line break, so the indentation of a line is the
+   whitespace token that follows the one holding the break). *)
+Definition ends_in_lf (s : bytes) : bool := match rev s with c :: _ => eqc c Lex.LF | [] => false end.
 Fixpoint ws_scan (cfg : wscfg) (at_start pend : bool) (ts : list tok) : option wsbad :=
   match ts with
   | [] => if pend then Some BadNewline else None
@@ -99,14 +103,14 @@ Fixpoint ws_scan (cfg : wscfg) (at_start pend : bool) (ts : list tok) : option w
     | TWs s0 =>
       let s := if pend then Lex.CR :: s0 else s0 in
       if negb (newlines_ok (windows cfg) s) then Some BadNewline
-      else match (if at_start then Some s else after_last_nl None s) with
-           | Some ind => (* indentation only matters when something follows on that line *)
-             match r with
-             | [] => ws_scan cfg false false r
-             | _ => if indent_ok cfg ind then ws_scan cfg false false r else Some BadIndent
-             end
-           | None => ws_scan cfg false false r
-           end
+      else if ends_in_lf s then ws_scan cfg true false r          (* nothing follows on this line *)
+      else if at_start then
+        (* indentation only matters when something follows on that line *)
+        match r with
+        | [] => ws_scan cfg false false r
+        | _ => if indent_ok cfg s then ws_scan cfg false false r else Some BadIndent
+        end
+      else ws_scan cfg false false r
     | TLineCom s | TShebang s =>
       if pend then Some BadNewline
       else let '(body, cr) := split_cr s in
